@@ -1,8 +1,11 @@
 SPECIFICATION Spec
 CONSTANTS
   MaxBody = 3
-  Shapes <- Shapes3
+  Shapes <- ShapesQ3
   Rounds = 2
+  RESETLAST = TRUE
+  HDRDATA = TRUE
+  MaxEmpty = 1
   GEN = TRUE
 CONSTRAINT GenPrint
 CHECK_DEADLOCK FALSE
